@@ -235,6 +235,15 @@ def prepare_ligands(job, g):
     at = spec["atypes"][0]["name"]
     spec["restypes"]["LGR"] = {"name": "LGR", "atoms": [{"name": "L1", "atype": at}], "bonds": [], "constraints": [],
                                "angles": [], "vsites": [], "blen": 0.3}
+    if g.random() < 0.4:
+        # the host is a ring molecule named in -cycles (its growth order is worked out before the ligands are attached)
+        first = next(m for m in spec["moltypes"] if m["name"] == spec["molecules"][0][0])
+        n = len(first["residues"])
+        if n >= 4 and not first.get("list_order") and not first.get("resid_restart"):
+            first.update({"shape": "ring", "edges": [[k, k + 1] for k in range(n - 1)] + [[0, n - 1]]})
+            job["opts"]["cycles"] = [first["name"]]
+            job["opts"]["cycle_tol"] = g.choice([0.2, 0.3])
+            job["ligand_on_cyclic_host"] = True
     spec["moltypes"].append({"name": "LG", "shape": "single", "residues": ["LGR"], "edges": [], "nrexcl": 1})
     first = sum(c for _n, c in spec["molecules"])
     n = g.randint(1, 3)
@@ -251,6 +260,8 @@ def finish_ligands(job, g):
     hosts = [i for i in range(plan["first"]) if len(inst[i]["residues"]) >= 2]
     if not hosts:
         return False
+    if job.get("ligand_on_cyclic_host"):
+        hosts = [i for i in hosts if inst[i]["name"] in (job["opts"].get("cycles") or [])] or hosts
     ligs = []
     used = set()
     for k in range(plan["n"]):
@@ -524,6 +535,12 @@ def add_coordinates(job, g, profile, force_res=None, cut_at_instance=None, cut_a
         full = [(at["resid"], at["resname"], at["atomname"]) + tuple(at["xyz"]) for at in gro["atoms"]]
         if len(full) != len(lines):
             job["pre_coord_text"] = write_gro_text("verif earlier input", full, gro["box"][:3])
+    if lines and job.get("coord_ext") != "pdb" and not job.get("pre_coord_text") and g.random() < profile.get("p_rel_inputs", 0.0):
+        # the same residues at other places (moved 0.05 nm towards the box centre): lies next to the topology
+        bx = gro["box"][:3]
+        moved = [l[:3] + tuple(round(l[3 + d] + (0.05 if l[3 + d] < bx[d] / 2 else -0.05), 3) for d in range(3)) for l in lines]
+        job["rel_decoy_text"] = write_gro_text("verif other structure", moved, bx)
+        job["rel_inputs"] = True
     job["coord_kind"] = kind
     job["coord_box"] = gro["box"][:3]
     if job.get("coord_ext") == "pdb":
@@ -617,10 +634,11 @@ def add_start_on_supplied(job, g):
     return True
 
 
-def add_user_templates(job, g):
-    """[ template ] and/or [ volumes ] entries for some residue types (without virtual sites)"""
+def add_user_templates(job, g, allow_vs=False):
+    """[ template ] and/or [ volumes ] entries for some residue types (with virtual sites only if allow_vs: the
+    template then gives a position for the site as well, its [ bonds ] list the real bonds only)"""
     spec = job["spec"]
-    names = [n for n, rt in sorted(spec["restypes"].items()) if not rt["vsites"]]
+    names = [n for n, rt in sorted(spec["restypes"].items()) if allow_vs or not rt["vsites"]]
     used = set()
     for mt in spec["moltypes"]:
         if any(n == mt["name"] for n, _ in spec["molecules"]):
@@ -674,6 +692,63 @@ def add_user_templates(job, g):
     job["user_templates"] = user_templates
     job["user_volumes"] = user_volumes
     return True
+
+
+def add_template_with_subset_variant(job, g):
+    """a [ template ] for residue name X while one residue of that name (a chain end) lacks the last bead of X: the
+    user template applies to the residues whose labelled graph it describes, the shorter variant gets its own"""
+    spec = job["spec"]
+    # make sure a suitable chain exists: the first molecule type becomes a homopolymer of a residue type with >= 3
+    # atoms whose last atom is a leaf
+    for rn0, rt0 in sorted(spec["restypes"].items()):
+        n0 = len(rt0["atoms"])
+        pr = [(a, b) for a, b, *_ in list(rt0["bonds"]) + list(rt0["constraints"])]
+        if not rt0["vsites"] and n0 >= 3 and sum(1 for a, b in pr if n0 - 1 in (a, b)) == 1 \
+                and not rt0.get("impossible") and not rt0.get("conflict"):
+            mt0 = spec["moltypes"][0]
+            for k in ("list_order", "residue_override", "restype_override", "resid_restart"):
+                mt0.pop(k, None)
+            k = g.randint(3, 5)
+            mt0.update({"shape": "linear", "residues": [rn0] * k, "edges": [[x, x + 1] for x in range(k - 1)]})
+            if not any(n == mt0["name"] for n, _ in spec["molecules"]):
+                spec["molecules"].append([mt0["name"], 1])
+            break
+    for mt in spec["moltypes"]:
+        if mt.get("residue_override") or mt.get("restype_override") or mt.get("list_order") or \
+                not any(n == mt["name"] for n, _ in spec["molecules"]):
+            continue
+        for rn in sorted(set(mt["residues"])):
+            rt = spec["restypes"][rn]
+            idxs = [i for i, r in enumerate(mt["residues"]) if r == rn]
+            n = len(rt["atoms"])
+            if rt["vsites"] or n < 3 or len(idxs) < 2 or rt.get("impossible") or rt.get("conflict"):
+                continue
+            last = n - 1
+            pairs = [(a, b) for a, b, *_ in list(rt["bonds"]) + list(rt["constraints"])]
+            if sum(1 for a, b in pairs if last in (a, b)) != 1:
+                continue            # only a leaf can be dropped without cutting the residue in two
+            # the link bond of the generator leaves from the LAST real atom: the variant sits at the end of the chain
+            var = {k: ([list(x) if isinstance(x, list) else (dict(x) if isinstance(x, dict) else x) for x in v]
+                       if isinstance(v, list) else v) for k, v in rt.items()}
+            var["atoms"] = var["atoms"][:last]
+            for sec in ("bonds", "constraints", "angles", "impropers", "propers"):
+                var[sec] = [e for e in var.get(sec, []) if last not in e[:{"bonds": 2, "constraints": 2, "angles": 3}.get(sec, 4)]]
+            var["angle_functs"] = []
+            tail = [i for i in idxs if not any(a == i for a, _b in map(sorted, mt["edges"]))]
+            if not tail:
+                continue
+            mt["residue_override"] = {str(tail[-1]): var}
+            atoms, ut = {}, {}
+            for k, a in enumerate(rt["atoms"]):
+                xyz = [round(0.3 * k + g.uniform(-0.1, 0.1), 3), round(g.uniform(-0.2, 0.2), 3), round(g.uniform(-0.2, 0.2), 3)]
+                atoms[a["name"]] = [a["atype"], xyz]
+                ut[a["name"]] = xyz
+            bonds = [[rt["atoms"][a]["name"], rt["atoms"][b]["name"]] for a, b in pairs]
+            job["bld_templates"] = dict(job.get("bld_templates") or {}, **{rn: {"atoms": atoms, "bonds": bonds}})
+            job["user_templates"] = dict(job.get("user_templates") or {}, **{rn: ut})
+            job["template_with_subset_variant"] = True
+            return True
+    return False
 
 
 def add_resname_clash(job, g):
